@@ -83,7 +83,46 @@ pub fn sibling_prelude(r: &mut Rng, world: &World) -> evalx::Prelude {
             }
         })
         .collect();
-    evalx::Prelude { model: lines.join("\n") + "\n", k: world.k, formulae: vec!["!{x}: AG EF {x}".to_string(), "!{x}: AX {x}".to_string(), "3{x}: @{x}: EX true".to_string()] }
+    let mut model = lines.join("\n") + "\n";
+    // half of the time the first and the last variable swap names: the same symbolic width, but
+    // parameters and spare variables sit at other positions of the BDD variable order
+    let names = world.var_names();
+    if names.len() >= 2 && r.chance(1, 2) {
+        let (a, b) = (names[0].clone(), names[names.len() - 1].clone());
+        let mut out = String::new();
+        let mut tok = String::new();
+        let flush = |tok: &mut String, out: &mut String| {
+            if *tok == a {
+                out.push_str(&b);
+            } else if *tok == b {
+                out.push_str(&a);
+            } else {
+                out.push_str(tok);
+            }
+            tok.clear();
+        };
+        for ch in model.chars() {
+            if ch.is_alphanumeric() || ch == '_' {
+                tok.push(ch);
+            } else {
+                flush(&mut tok, &mut out);
+                out.push(ch);
+            }
+        }
+        flush(&mut tok, &mut out);
+        model = out;
+    }
+    evalx::Prelude {
+        model,
+        k: world.k,
+        formulae: vec![
+            "!{x}: AG EF {x}".to_string(),
+            "!{x}: AX {x}".to_string(),
+            "3{x}: @{x}: EX true".to_string(),
+            // a duplicate that is shared under two variable names (a cache hit that renames)
+            "(3{x}: (@{x}: (EF {x}))) & (3{x}: (3{y}: (@{y}: (EF {y}))))".to_string(),
+        ],
+    }
 }
 
 impl C04 {
